@@ -10,6 +10,7 @@ import (
 	"io"
 	"os"
 	"os/exec"
+	"sort"
 	"strconv"
 	"strings"
 	"testing/iotest"
@@ -46,7 +47,7 @@ func init() {
 		Level:  "fault_enumeration",
 		Rule: "E3 fault enumeration: (truncation) every frame of a 40-frame alphabet (4 message kinds × body lengths 0..200) × EVERY cut point k < len(frame) × reader chunkings {whole, 1 byte at a time, and every chunking with ≤1 (thorough ≤2) extra deviations: short read at any byte, data together with io.EOF, one empty read}, the same cuts through 11 standard-library reader types (bytes.Reader, bytes.Buffer, strings.Reader, bufio.Reader of 16/32/64/4096 bytes, io.LimitedReader, io.SectionReader, iotest.OneByteReader, iotest.DataErrReader - code may special-case a reader's dynamic type), and four frames with bodies of 1..3 MiB × cut points within ±1 of m·2^p (p = 9..22, m = 1..3, measured from the frame and from the body start) × {whole, 4 KiB, 64 KiB chunks}: never success, n = k, cause io.EOF for k=0, io.ErrUnexpectedEOF otherwise, either one for k=32; " +
 			"(corrupt header, in a memory-limited worker process) header-size field × body-size field alphabets (0, len±1, 2^31, 2^32, 2^40, 2^47, 2^48, 2^62, 2^63-1, 2^63, 2^63+1, 2^64-1 …) × version bytes {ASCII, 0xff, NUL} × {0, 5, all} body bytes present: header size ≠ 32 ⇒ ErrInvalidHeaderSize after exactly 32 bytes; otherwise success iff the declared body is completely present; never a panic, never a dead process; ReadHeader on every prefix 0..40 of arbitrary bytes returns normally; " +
-			"(writer faults) every frame × EVERY byte budget k ≤ len(frame) × {partial write with error, refusal with count 0, full count TOGETHER with the error on the call that ends exactly at the budget (one-shot; later bytes are recorded)}: Marshal returns that error and the count of accepted bytes, which are exactly frame[:count]; (read errors) a non-EOF error injected at every offset, alone or together with the last bytes, under whole and 1-byte chunkings and after every single chunking deviation (short read at any byte, one empty read): no success unless the frame was delivered completely, n = bytes delivered. A case is one (frame, fault point, mode); non-trivial when the fault point is inside the frame (0 < k < len).",
+			"(writer faults) every frame × EVERY byte budget k ≤ len(frame) × {partial write with error, refusal with count 0, full count TOGETHER with the error on the call that ends exactly at the budget (one-shot; later bytes are recorded)}: Marshal returns that error and the count of accepted bytes, which are exactly frame[:count] - also for 18 longer frames (bodies of 4000..70000 bytes and 1 MiB+1) with budgets at both ends and around 512, 4096, 8192, 65536, 2^20 measured from the start, from the body start and from the end; (read errors) a non-EOF error injected at every offset, alone or together with the last bytes, under whole and 1-byte chunkings and after every single chunking deviation (short read at any byte, one empty read): no success unless the frame was delivered completely, n = bytes delivered. A case is one (frame, fault point, mode); non-trivial when the fault point is inside the frame (0 < k < len).",
 		Assumptions: []string{
 			"for a body-size field ≥ 2^63 (no valid frame can have such a body) only 'returns normally and does not succeed' is required; for smaller declared sizes that exceed the stream the truncation clause applies (n = bytes available)",
 			"the worker process runs under `ulimit -v`; a worker that dies is reported for the case it announced before executing it",
@@ -629,6 +630,60 @@ func c07Run(c *mc.Ctx) {
 		c.Count(1, 1)
 		c.Add("large_frame_truncation_cases", 1)
 	})
+	// writer faults on LONGER frames: a Marshal that buffers (bufio's 4096 bytes, 8192, 64 KiB, 1 MiB)
+	// must still report what the writer accepted. Frames whose total length lies around those sizes ×
+	// budgets at both ends, around every such size and around "length minus such a size" × 3 writer modes.
+	{
+		type wj struct {
+			f      c06Frame
+			budget int
+			mode   string
+		}
+		var wjs []wj
+		for _, body := range []int{4000, 4064, 4065, 5000, 8161, 10000, 65536, 70000, 1<<20 + 1} {
+			for _, kind := range []string{"legacy", "pbv"} {
+				f := c06Frame{Kind: kind, Payload: body}
+				if kind == "pbv" {
+					f.Version = "1.2.3"
+				}
+				l := len(c06Wire(f))
+				seen := map[int]bool{}
+				for _, b := range []int{0, 1, 31, 32, 33, l - 2, l - 1, l} {
+					seen[b] = true
+				}
+				for _, t := range []int{512, 4096, 8192, 65536, 1 << 20} {
+					for d := -1; d <= 1; d++ {
+						seen[t+d] = true
+						seen[l-t+d] = true
+						seen[32+t+d] = true
+					}
+				}
+				var budgets []int
+				for b := range seen {
+					budgets = append(budgets, b)
+				}
+				sort.Ints(budgets)
+				for _, b := range budgets {
+					if b < 0 || b > l {
+						continue
+					}
+					for _, mode := range []string{"partial", "refuse", "fullerr"} {
+						wjs = append(wjs, wj{f, b, mode})
+					}
+				}
+			}
+		}
+		c.Expect(int64(len(wjs)))
+		c.Par(len(wjs), func(i int) {
+			j := wjs[i]
+			fc := j.f
+			if g, w := c07WriterFault(j.f, j.budget, j.mode); g != w {
+				c.Fail(8<<48|int64(j.f.Payload)<<24|int64(j.budget)<<2|int64(i&3), "writer", "writer/long-frame", c07Case{Frame: &fc, Budget: j.budget, Mode: j.mode}, g, w)
+			}
+			c.Count(1, 1)
+			c.Add("writer_fault_cases_long_frames", 1)
+		})
+	}
 	// ReadHeader on arbitrary prefixes
 	for _, fill := range []int{'A', 0xff, 0x00} {
 		for p := 0; p <= 40; p++ {
